@@ -181,11 +181,12 @@ def crafted_cases():
     p = pack_problem(np.diag([1.0, -1.0]).astype(complex), np.array([-1.0 - 1j, -1.0 - 1j]), 0.0, "zero", 1.0,
                      np.zeros(2, complex), 1.0, True, "complex-orthogonal")
     out.append({**p, "policy": {"kind": "bb"}, "accel": False, "steps": 4})
-    # zero budget
+    # zero (and negative) budget
     for kind in ("ls", "rls"):
-        p = pack_problem(np.eye(2), [1.0, 1.0], 0.0, "zero", 1.0, [1.0, -1.0], 1.0, False, "maxiter0")
-        pol = {"kind": "ls", "gu": 2.0, "maxiter": 0} if kind == "ls" else {"kind": "rls", "gd": 0.5, "gu": 2.0, "maxiter": 0}
-        out.append({**p, "policy": pol, "accel": kind == "rls", "steps": 2})
+        for mi in (0, -1):
+            p = pack_problem(np.eye(2), [1.0, 1.0], 0.0, "zero", 1.0, [1.0, -1.0], 1.0, False, "maxiter0")
+            pol = {"kind": "ls", "gu": 2.0, "maxiter": mi} if kind == "ls" else {"kind": "rls", "gd": 0.5, "gu": 2.0, "maxiter": mi}
+            out.append({**p, "policy": pol, "accel": kind == "rls", "steps": 2})
     return out
 
 
